@@ -3,8 +3,10 @@ package mux
 // C10 — multiplexed connections deliver each stream complete, in order and isolated.
 
 import (
+	"errors"
 	"fmt"
 	"net"
+	"os"
 	"runtime"
 	"strings"
 	"sync"
@@ -59,6 +61,9 @@ type C10Case struct {
 	// (0 = before any traffic), at the latest UnblockDelayMs after the traffic started
 	UnblockAfter   [2]int `json:"unblock_after,omitempty"`
 	UnblockDelayMs [2]int `json:"unblock_delay_ms,omitempty"`
+	// WriteFaults / WriteDeadline: the trunk's Write fails with (0, err) and works again afterwards
+	WriteFaults   []C10WriteFault `json:"write_faults,omitempty"`
+	WriteDeadline *C10Deadline    `json:"write_deadline,omitempty"`
 	// Mixed: rounds of concurrent Open/Close of different ids on one end, run after the barrier rounds
 	Mixed *C10Mixed `json:"mixed,omitempty"`
 	// Ghosts: writes to connection ids that are not open at the receiving end (dropped by design)
@@ -138,6 +143,7 @@ func genC10(t *rapid.T) C10Case {
 	c.Delays = genDelays(t, 6)
 	c.Rounds = genRounds(t, c.minQLen())
 	c.Mixed = genMixed(t)
+	genWriteFaults(t, &c)
 	if rapid.IntRange(0, 1).Draw(t, "ghosts") == 0 {
 		c.Ghosts = rapid.SliceOfN(rapid.Custom(func(t *rapid.T) C10Ghost {
 			g := C10Ghost{Dir: rapid.IntRange(0, 1).Draw(t, "gdir"), Closed: rapid.IntRange(0, 2).Draw(t, "gclosed") == 0}
@@ -199,8 +205,13 @@ type c10run struct {
 	log      []c10Event
 	lenient  map[string]bool
 
-	towards   [2]atomic.Int64 // Writes started towards mux 0 / 1
-	unblocked [2]atomic.Bool  // Unblock of that mux has been called (or it was never blocked)
+	fc         [2]*faultConn
+	gate       [2]sync.RWMutex   // held (shared) by every Write of the harness; exclusively while a write deadline is set
+	dlSeen     [2]atomic.Bool    // a write deadline has been set on that mux' trunk
+	fatalFault atomic.Bool       // a trunk Write failed after part of a payload was on the wire: the mux has to fail as a whole
+	skip       [][][]atomic.Bool // [stream][writer][seq]: the payload was abandoned after a clean Write failure
+	towards    [2]atomic.Int64   // Writes started towards mux 0 / 1
+	unblocked  [2]atomic.Bool    // Unblock of that mux has been called (or it was never blocked)
 }
 
 func (r *c10run) failf(format string, a ...any) {
@@ -245,7 +256,21 @@ func runC10Once(c C10Case) (ev.Outcome, bool) {
 	if c.Blocked { // older cases: both ends blocked, unblocked before any traffic
 		blocked = [2]bool{true, true}
 	}
-	r.p = connectPairOpts(pairOpts{qlen: [2]int{c.qlenOf(0), c.qlenOf(1)}, omitQLen: c.OmitQLen, blocked: blocked, ids: c.IDs})
+	var wrap func(int, net.Conn) net.Conn
+	if len(c.WriteFaults) > 0 {
+		wrap = func(side int, raw net.Conn) net.Conn {
+			r.fc[side] = &faultConn{Conn: raw, onFatal: func() { r.fatalFault.Store(true) }}
+			return r.fc[side]
+		}
+	}
+	r.skip = make([][][]atomic.Bool, len(c.Streams))
+	for si, st := range c.Streams {
+		r.skip[si] = make([][]atomic.Bool, len(st.Writers))
+		for w, sizes := range st.Writers {
+			r.skip[si][w] = make([]atomic.Bool, len(sizes))
+		}
+	}
+	r.p = connectPairOpts(pairOpts{qlen: [2]int{c.qlenOf(0), c.qlenOf(1)}, omitQLen: c.OmitQLen, blocked: blocked, ids: c.IDs, wrap: wrap})
 	defer r.p.shutdown()
 	for sd := 0; sd < 2; sd++ {
 		r.unblocked[sd].Store(!blocked[sd])
@@ -319,6 +344,7 @@ func runC10Once(c C10Case) (ev.Outcome, bool) {
 
 	var wg sync.WaitGroup
 	for si := range c.Streams {
+		si := si
 		s := c.Streams[si]
 		cred := newCredits(c.qlenOf(1 - s.Dir))
 		r.creds = append(r.creds, cred)
@@ -330,7 +356,7 @@ func runC10Once(c C10Case) (ev.Outcome, bool) {
 		go func() {
 			defer wg.Done()
 			defer r.recoverPanic(name + " reader")
-			r.reader(s, name, rd, cred)
+			r.reader(si, s, name, rd, cred)
 		}()
 
 		var wwg sync.WaitGroup
@@ -341,7 +367,7 @@ func runC10Once(c C10Case) (ev.Outcome, bool) {
 				defer wg.Done()
 				defer wwg.Done()
 				defer r.recoverPanic(name + " writer")
-				r.writer(s, name, w, wr, cred)
+				r.writer(si, s, name, w, wr, cred)
 			}(w)
 		}
 		// end-of-stream marker once every writer of the stream is done
@@ -360,8 +386,10 @@ func runC10Once(c C10Case) (ev.Outcome, bool) {
 			if r.aborted.Load() {
 				return
 			}
-			if n, err := wr.Write(b); err != nil || n != len(b) {
-				r.failf("%s: Write of %d bytes returned (%d, %v) although the receiver keeps up", name, len(b), n, err)
+			if n, err := r.writeRetrying(s.Dir, wr, b); err != nil || n != len(b) {
+				if !r.fatalFault.Load() {
+					r.failf("%s: Write of %d bytes returned (%d, %v) although the receiver keeps up", name, len(b), n, err)
+				}
 			}
 			r.progress.Add(1)
 		}()
@@ -381,8 +409,8 @@ func runC10Once(c C10Case) (ev.Outcome, bool) {
 				b := make([]byte, l)
 				d.fill(b)
 				r.towards[1-g.spec.Dir].Add(1)
-				if n, err := g.wr.Write(b); err != nil || n != l {
-					if !r.aborted.Load() {
+				if n, err := r.writeRetrying(g.spec.Dir, g.wr, b); err != nil || n != l {
+					if !r.aborted.Load() && !r.fatalFault.Load() {
 						r.failf("Write of %d bytes to id=%d (open at the sending end only) returned (%d, %v)", l, g.id, n, err)
 					}
 					return
@@ -391,8 +419,29 @@ func runC10Once(c C10Case) (ev.Outcome, bool) {
 			}
 		}()
 	}
-	// Unblock of blocked multiplexers at their drawn point
 	started := time.Now()
+	// a real write deadline on the trunk of one mux, set while none of its Writes is in progress
+	if dl := c.WriteDeadline; dl != nil && dl.Side >= 0 && dl.Side <= 1 {
+		wg.Add(1)
+		go func() {
+			defer wg.Done()
+			defer r.recoverPanic("write deadline")
+			for r.towards[1-dl.Side].Load() < int64(dl.AfterWrites) && time.Since(started) < 5*time.Millisecond && !r.aborted.Load() {
+				time.Sleep(100 * time.Microsecond)
+			}
+			tr := r.p.m[dl.Side].Trunk()
+			r.gate[dl.Side].Lock()
+			r.dlSeen[dl.Side].Store(true)
+			_ = tr.SetWriteDeadline(time.Now())
+			r.gate[dl.Side].Unlock()
+			if dl.HoldUs > 0 {
+				time.Sleep(time.Duration(dl.HoldUs) * time.Microsecond)
+			}
+			_ = tr.SetWriteDeadline(time.Time{})
+			r.progress.Add(1)
+		}()
+	}
+	// Unblock of blocked multiplexers at their drawn point
 	for sd := 0; sd < 2; sd++ {
 		if !blocked[sd] {
 			continue
@@ -447,7 +496,7 @@ wait:
 	}
 
 	// barrier rounds: concurrent acquisition of the handle of fresh ids (both ends deliver by now)
-	if len(c.Rounds) > 0 && r.fail == "" {
+	if len(c.Rounds) > 0 && r.fail == "" && !r.fatalFault.Load() {
 		bad, stall, same := runOpenRounds(c, r.p, alloc)
 		ev.Get("C10").AddExtra("open_rounds", len(c.Rounds))
 		ev.Get("C10").AddExtra("open_rounds_all_handles_identical", same)
@@ -460,7 +509,7 @@ wait:
 		}
 	}
 
-	if c.Mixed != nil && r.fail == "" {
+	if c.Mixed != nil && r.fail == "" && !r.fatalFault.Load() {
 		ev.Get("C10").AddExtra("mixed_open_close_rounds", len(c.Mixed.Rounds))
 		if bad, stall := runMixedRounds(c, r.p, alloc); bad != "" {
 			o := ev.Outcome{Classes: c10Classes(c), NonTrivial: c10NonTrivial(c), Fail: bad}
@@ -501,7 +550,30 @@ func (r *c10run) recoverPanic(who string) {
 	}
 }
 
-func (r *c10run) writer(s C10Stream, name string, w int, wr net.Conn, cred *credits) {
+// guardedWrite is one Write of the harness on mux `side`. clean: the Write failed although the
+// multiplexer stays usable and nothing of the payload was sent (an expired write deadline).
+func (r *c10run) guardedWrite(side int, c net.Conn, b []byte) (n int, err error, clean bool) {
+	r.gate[side].RLock()
+	n, err = c.Write(b)
+	r.gate[side].RUnlock()
+	if err != nil && r.dlSeen[side].Load() && errors.Is(err, os.ErrDeadlineExceeded) {
+		clean = true
+	}
+	return
+}
+
+// writeRetrying repeats a Write that failed cleanly (markers, ghost frames).
+func (r *c10run) writeRetrying(side int, c net.Conn, b []byte) (int, error) {
+	for try := 0; ; try++ {
+		n, err, clean := r.guardedWrite(side, c, b)
+		if !clean || try > 20000 || r.aborted.Load() {
+			return n, err
+		}
+		time.Sleep(50 * time.Microsecond)
+	}
+}
+
+func (r *c10run) writer(si int, s C10Stream, name string, w int, wr net.Conn, cred *credits) {
 	sizes := s.Writers[w]
 	maxLen := 0
 	for _, l := range sizes {
@@ -517,25 +589,66 @@ func (r *c10run) writer(s C10Stream, name string, w int, wr net.Conn, cred *cred
 	} else {
 		buf = make([]byte, maxLen)
 	}
+	onFail := "retry"
 	for seq, l := range sizes {
 		d := payloadDesc{Conn: s.Conn, Dir: s.Dir, Writer: w, Seq: seq, Len: l, ID: r.c.IDs[s.Conn]}
 		d.fill(buf[:l])
-		cred.acquire(nFrames(l))
-		if r.aborted.Load() {
-			return
+		var req *faultReq
+		if w == 0 && r.fc[s.Dir] != nil {
+			for _, f := range r.c.WriteFaults {
+				if f.Stream == si && f.Payload == seq && req == nil {
+					req = &faultReq{id: d.ID, chunk: f.Chunk, pos: f.Pos, err: writeErrOf(f.Class)}
+					onFail = f.OnFail
+				}
+			}
 		}
-		r.towards[1-s.Dir].Add(1)
-		n, err := wr.Write(buf[:l])
-		if err != nil || n != l {
-			r.failf("%s writer %d seq %d: Write of %d bytes returned (%d, %v) although the receiver keeps up with queue length %d",
-				name, w, seq, l, n, err, r.c.qlenOf(1-s.Dir))
-			return
+		for try := 0; ; try++ {
+			cred.acquire(nFrames(l))
+			if r.aborted.Load() {
+				return
+			}
+			r.towards[1-s.Dir].Add(1)
+			if req != nil && try == 0 {
+				r.fc[s.Dir].arm(req)
+			}
+			n, err, clean := r.guardedWrite(s.Dir, wr, buf[:l])
+			if req != nil && try == 0 {
+				r.fc[s.Dir].disarm()
+				if req.fired && req.clean {
+					clean = true
+				}
+			}
+			if err == nil && n == l {
+				break
+			}
+			if r.fatalFault.Load() {
+				return // part of a payload is on the wire: the mux has to fail as a whole; nothing more to send
+			}
+			if !clean || err == nil {
+				r.failf("%s writer %d seq %d: Write of %d bytes returned (%d, %v) although the receiver keeps up with queue length %d",
+					name, w, seq, l, n, err, r.c.qlenOf(1-s.Dir))
+				return
+			}
+			// the Write failed and nothing of it was sent: it contributes nothing to the stream
+			if n != 0 {
+				r.failf("%s writer %d seq %d: Write returned n=%d together with the error %v", name, w, seq, n, err)
+				return
+			}
+			cred.release(nFrames(l))
+			r.note(name, l, fmt.Sprintf("w%d seq%d Write failed cleanly: %v", w, seq, err))
+			if onFail == "abandon" || try > 20000 {
+				r.skip[si][w][seq].Store(true)
+				break
+			}
+			if req == nil || !req.fired {
+				time.Sleep(50 * time.Microsecond) // an expired deadline: wait for it to be cleared
+			}
 		}
 		r.progress.Add(1)
 	}
 }
 
-func (r *c10run) reader(s C10Stream, name string, rd net.Conn, cred *credits) {
+func (r *c10run) reader(si int, s C10Stream, name string, rd net.Conn, cred *credits) {
 	var buf []byte
 	if s.Slack == 0 {
 		bp := getBuf()
@@ -566,6 +679,13 @@ func (r *c10run) reader(s C10Stream, name string, rd net.Conn, cred *credits) {
 		}
 		if err == nil && wasBlocked && !r.unblocked[1-s.Dir].Load() {
 			r.failf("%s reader: a frame of %d bytes was delivered although the mux was created WithBlockedRead and Unblock has not been called yet", name, n)
+			return
+		}
+		if err != nil && r.fatalFault.Load() {
+			// the multiplexer failed as a whole after a partial frame: what was read is a prefix
+			for _, cr := range r.creds {
+				cr.disable()
+			}
 			return
 		}
 		if err != nil {
@@ -624,11 +744,14 @@ func (r *c10run) reader(s C10Stream, name string, rd net.Conn, cred *credits) {
 				r.failf("%s reader: damaged end marker (%d bytes)", name, n)
 				return
 			}
+			if r.fatalFault.Load() {
+				return // the mux had to fail as a whole; writers stopped: a prefix is all that is demanded
+			}
 			for w, sizes := range s.Writers {
 				// trailing zero-length payloads cannot be attributed; everything else must be there
 				rest := 0
-				for _, l := range sizes[next[w]:] {
-					if l != 0 {
+				for k := next[w]; k < len(sizes); k++ {
+					if sizes[k] != 0 && !r.skip[si][w][k].Load() {
 						rest++
 					}
 				}
@@ -636,6 +759,17 @@ func (r *c10run) reader(s C10Stream, name string, rd net.Conn, cred *credits) {
 					r.failf("%s reader: stream ended but %d payload(s) of writer %d from seq %d on never arrived (incomplete)", name, rest, w, next[w])
 					return
 				}
+			}
+			for w, sizes := range s.Writers {
+				for k, l := range sizes {
+					if l == 0 && r.skip[si][w][k].Load() {
+						zerosSent--
+					}
+				}
+			}
+			if zerosRecv > zerosSent {
+				r.failf("%s reader: %d zero-length reads but only %d zero-length writes succeeded on this connection", name, zerosRecv, zerosSent)
+				return
 			}
 			if zerosRecv < zerosSent {
 				r.failMu.Lock()
@@ -650,8 +784,8 @@ func (r *c10run) reader(s C10Stream, name string, rd net.Conn, cred *credits) {
 		}
 		// skip this writer's zero-length payloads (they carry no bytes and were counted above)
 		seq := next[w]
-		for seq < len(s.Writers[w]) && s.Writers[w][seq] == 0 {
-			seq++
+		for seq < len(s.Writers[w]) && (s.Writers[w][seq] == 0 || r.skip[si][w][seq].Load()) {
+			seq++ // (abandoned payloads - their Write failed - are not part of the stream)
 		}
 		if seq >= len(s.Writers[w]) {
 			r.failf("%s reader: frame of %d bytes claims writer %d, whose payloads were all received already (duplicate or foreign data)", name, n, w)
@@ -817,6 +951,18 @@ func c10Classes(c C10Case) []string {
 			}
 		}
 	}
+	if len(c.WriteFaults) > 0 {
+		cls = append(cls, "trunk_write_fault")
+		for _, f := range c.WriteFaults {
+			cls = append(cls, "write_fault:"+f.Class, "write_fault_then:"+f.OnFail)
+			if f.Pos != "header" || f.Chunk != 0 {
+				cls = append(cls, "write_fault_after_header")
+			}
+		}
+	}
+	if c.WriteDeadline != nil {
+		cls = append(cls, "real_write_deadline")
+	}
 	if c.Mixed != nil && len(c.Mixed.Rounds) > 0 {
 		cls = append(cls, "concurrent_open_and_close_rounds")
 	}
@@ -832,5 +978,13 @@ func c10Classes(c C10Case) []string {
 	if len(c.Delays) > 0 && verifhook.Enabled {
 		cls = append(cls, "hook_delays")
 	}
-	return cls
+	seen := map[string]bool{}
+	out := cls[:0]
+	for _, k := range cls {
+		if !seen[k] {
+			seen[k] = true
+			out = append(out, k)
+		}
+	}
+	return out
 }
